@@ -113,6 +113,20 @@ CHECKS = {
              "operation histories run through the public API against a conforming-DC stub with an RPC counter.",
         note="Trusted: interpreter, z3, the invariant (MS-GKDI 2.2.4 shapes), chain-step KDF stub, conforming-DC stub. L0 is a listed dictionary key; await-point interleaving of "
              "the async API is argued from the AST check, not executed."),
+    "C03": dict(
+        text="GroupKeyEnvelope.new_kek / get_kek, compute_kek(_from_public_key), compute_public_key, the FFCDHKey/ECDHKey codecs and the _crypto.kdf / kdf_concat wrappers are "
+             "executed for nonce mode, DH (symbolic p, g over small groups where leading-zero values dominate, and the RFC 5114 group) and ECDH P256/P384 with symbolic seeds, "
+             "ephemeral keys and coordinates; z3 proves the encrypting side's KEK equals the decrypting side's on every path, that every KDF invocation has exactly the prescribed "
+             "SP800-108 / SP800-56A parameterisation (captured constructor arguments), and that shared secrets and packed values have exactly key_length octets.",
+        note="Trusted: interpreter, z3, DH algebra stub (commutativity only, no coincidences), KDF classes replaced at their constructors. NOT decided: that cryptography's "
+             "KBKDFHMAC/ConcatKDFHash/ECDH equal an independent implementation bit for bit (hashing is outside solver reach); P521; other key lengths."),
+    "C17": dict(
+        text="The public sync and async APIs are executed end to end against a reference domain controller written in the harness (own PDU / NDR64 / tower / MS-GKDI decoders and "
+             "encoders, ideal security context, ideal KDF/AEAD/DH): the DC checks every PDU of the conversation (EPM bind + ept_map for the ISD_KEY tower, connection to the returned "
+             "symbolic port, authenticated bind, PKT_PRIVACY-sealed GetKey with the ISD_KEY/NDR64 verification trailer), the decoded request must name exactly the key the blob / "
+             "caller asked for, the result must decrypt, and the sync and async transcripts must be byte-wise equal.",
+        note="Trusted: interpreter, z3, the reference DC and stubs. One GetKey per run; blob positions from a 3x3 corner set, listed SIDs/hashes; real NTLM/Kerberos, sockets and "
+             "Windows are outside the technique."),
 }
 
 _PENDING = "check not built yet in this round (work in progress; see DESIGN.md for the plan)"
